@@ -13,18 +13,28 @@ from .base import Result, V
 from . import simcommon as SC
 from .c07 import dev
 
-MODULES = ["TickitModel.Props.C11"]
-THEOREMS = ["identity_preserved", "reaches_master", "all_on_path_stopped", "no_report_for_unknown", "no_tick_after_error", "run_returns"]
+MODULES = ["TickitModel.Props.C11", 'TickitModel.Props.C11Stop']
+THEOREMS = ["identity_preserved", "reaches_master", "all_on_path_stopped", "no_report_for_unknown", "no_tick_after_error", "run_returns",
+            'stop_invariant', 'error_set_when_handler_finished', 'no_new_tick_after_error', 'no_step_into_tick_after_error', 'loop_exits_at_top', 'release_only_after_error', 'never_released_with_error_clear', 'all_stops_sent', 'reports_are_the_failures', 'sys_steps_bounded', 'measure_decreases', 'maximal_execution_returns', 'fair_run_returns', 'some_execution_returns', 'fair_schedule_exists', 'returned_is_stable', 'first_failure_bound', 'stopOnce_hangs', 'stopOnce_waits_forever', 'stopOnce_releases_before_error', 'stopOnce_hangs_in_every_system', 'parked_needs_wakeup']
 ANCHORS = ["src/tickit/core/components/component.py", "src/tickit/core/management/schedulers/base.py",
            "src/tickit/core/management/schedulers/master.py", "src/tickit/core/management/schedulers/nested.py",
            "src/tickit/core/components/system_component.py", "src/tickit/core/components/device_component.py",
            "src/tickit/core/simulation.py"]
-TECHNIQUE = "Lean 4 theorems over the exception-path model (identity preserved through any nesting depth, error reaches the master, every component on the path is stopped, no tick after the error flag) + fault enumeration on the real code (every component x n-th update, device and adapter hooks, delayed delivery) with completion of the run under the virtual clock"
+TECHNIQUE = "Lean 4 theorems over a statement-level transition system of the stop protocol (any number of failures per tick, any interleaving of the exception handlers: safety invariants + a decreasing measure => the run call returns under every fair schedule) with trace acceptance of the real scheduler's histories; Lean 4 theorems over the exception-path model (identity preserved through any nesting depth, error reaches the master, every component on the path is stopped, no tick after the error flag) + fault enumeration on the real code (every component x n-th update, device and adapter hooks, delayed delivery) with completion of the run under the virtual clock"
 LEVEL_TEXT = ("Theorems over a model of the exception path for configuration trees of any depth: the ComponentException received at every level up to "
               "the master carries the original component and error; it reaches the master whenever the failing device exists; every component "
               "managed by every scheduler on the path is sent StopComponent and every such scheduler raises its error flag; no tick starts after "
-              "the master's flag is up. PARTIAL: that the run call actually returns (all tasks complete, no hang) depends on asyncio task/cancel "
-              "behaviour and is established by fault enumeration on the real code, not by proof: every (component, n-th update <= 3) failure point "
+              "the master's flag is up. THE STOP PROTOCOL AT STATEMENT LEVEL (Core/StopProtocol, Props/C11Stop): the master's run loop (waiting / sleeping / inside a tick / exited), the error and "
+              "finished events, one exception handler coroutine per reported failure advancing statement by statement (StopComponent fan-out, error.set(), finished.set()), stop "
+              "messages in flight, with ANY number of components failing in a tick and ANY interleaving of the handlers at every await: once a handler has finished error is set; no "
+              "tick starts after error is set; finished is released by a handler only after that handler's error.set() (never_released_with_error_clear); every component has been "
+              "sent StopComponent by then (all_stops_sent); the reports are exactly the failures with their identities; an explicit measure decreases with every scheduler/bus step, "
+              "so every maximal execution is finite and ends with the run loop exited and all components stopped, and under every weakly fair schedule the run call returns "
+              "(maximal_execution_returns, fair_run_returns, first_failure_bound: at most 1 + m(2n+4) steps after the first failure); the seeded 'stop only once' variant provably "
+              "parks the run loop for ever (stopOnce_hangs, stopOnce_hangs_in_every_system). Tie: statement-level histories of the real MasterScheduler under TickitSimulation.run() "
+              "(1-3 failures, initial and later ticks, randomly delayed producer) must be strict executions of the model and agree on 'returned'. PARTIAL: only the master level is "
+              "statement-level (a nested failure enters as the failure of its top-level component; the path below is the tree model); task completion inside asyncio (cancellation of "
+              "adapter tasks) is established by fault enumeration on the real code: every (component, n-th update <= 3) failure point "
               "in flat and nested configurations (depth <= 2), device hook or adapter hook, in the initial tick or later, with other updates in "
               "flight, under the synchronous and a delaying bus; the run must finish within a step budget, report the original identity at the "
               "master, stop every top-level component and start no further tick; the model's report is compared with the messages seen.")
@@ -239,6 +249,33 @@ def run(tier, seed, drv):
                         if later:
                             res.violate(V("ticked-after-failure", f"master started tick @{later[0]['time']} after the failures of {t1} and {t2} were reported", site="MasterScheduler", double=True), case)
                     res.traces_validated += 1
+    # statement-level histories of the stop protocol (which statement of which exception handler ran when, every
+    # StopComponent produced and delivered, moves of the run loop) of the real MasterScheduler under TickitSimulation.run()
+    # with a randomly delaying producer, 1-3 failures in initial and later ticks: each must be a strict execution of the
+    # Lean model (Core/StopProtocol) whose theorems (Props/C11Stop) say that the run returns
+    try:
+        import c11_stop_trace
+        hs = c11_stop_trace.histories(3 if tier == "quick" else 24, seed0=seed * 100)
+        reps = drv.eval([{"op": "stopproto", "comps": h["comps"], "stopOnce": False, "actions": h["actions"]} for h in hs])
+        for h, rep in zip(hs, reps):
+            case = {"stop_history": h}
+            nf = sum(1 for a in h["actions"] if a[0] == "fail")
+            res.case(f"stop-history:{h['spec']}:{h['seed']}", nontrivial=nf > 0)
+            res.count(f"stop-history-failures={nf}")
+            res.traces_validated += 1
+            if not h["returned"]:
+                res.violate(V("run-did-not-return", f"stop-protocol history (spec {h['spec']}, seed {h['seed']}, {nf} failures): TickitSimulation.run() had not returned after "
+                              f"{c11_stop_trace.TIMEOUT} s; last actions {h['actions'][-6:]}", site="TickitSimulation.run", double=nf > 1), case)
+            if not (rep or {}).get("accepted"):
+                res.diverge(f"stop protocol model does not accept the history at action #{(rep or {}).get('at')} "
+                            f"{h['actions'][(rep or {}).get('at', 0)] if isinstance((rep or {}).get('at'), int) and (rep or {}).get('at') < len(h['actions']) else None} ({(rep or {}).get('why')})", case)
+            elif bool(rep.get("returned")) != bool(h["returned"]):
+                res.diverge(f"stop protocol model: returned={rep.get('returned')} (parked={rep.get('parked')}), real run returned={h['returned']}", case)
+    except Exception as e:   # noqa: BLE001
+        import traceback
+        # the trace source hooks private attributes of the scheduler (events, ticker methods); if they are not there any
+        # more the statement-level tie is lost for this run, which is recorded but is no finding about the property
+        res.notes.append(f"stop-protocol histories not recorded ({type(e).__name__}: {e}): the statement-level tie of Core/StopProtocol was NOT exercised in this run")
     # late starts: the failing component comes up after the scheduler's first Input (replayed on
     # subscription); everything must still be stopped and every task must complete
     from sim import run_scenario
@@ -272,6 +309,13 @@ def run(tier, seed, drv):
 def replay(payload, drv):
     c = payload["case"]
     res = Result()
+    if c.get("stop_history"):
+        import c11_stop_trace
+        h = c["stop_history"]
+        import asyncio as _a
+        names, log, ok = _a.run(c11_stop_trace.run_one(h["seed"], c11_stop_trace.SPECS[h["spec"]]))
+        rep = drv.eval([{"op": "stopproto", "comps": [str(n) for n in names], "stopOnce": False, "actions": log}])[0]
+        return {"returned": ok, "model": rep, "violations": [] if ok else [V("run-did-not-return", "stop-protocol history", site="TickitSimulation.run")]}
     if c.get("late_start"):
         from sim import run_scenario
         run_ = run_scenario(c["scenario"], bus="sync", stop_when=lambda trace, info: False)
